@@ -193,8 +193,9 @@ func (ga *GroupAggregator) Add(data any) error {
 		var fieldVal any
 		var found bool
 
-		// Check if it's a nested field
-		if fieldpath.IsNestedField(field) {
+		// Check if it's a nested field (a function key such as upper(d.name) or floor(n * 0.5) is not
+		// a path: its value was computed upstream and is stored in the row under the key text)
+		if fieldpath.IsNestedField(field) && !strings.Contains(field, "(") {
 			fieldVal, found = fieldpath.GetNestedField(data, field)
 		} else {
 			// Original field access logic
